@@ -9,8 +9,11 @@
           `encodeUnigram` (`Offs`: results are `lift pre res0` of the run on empty scratch state).
   Part 5  the back-walk renders a walk (`backWalk_walk`) ⇒ `unigram_walk`.
   Part 6  optimality: `innerLoop_opt`, segmentations (snoc decomposition), predecessor `Chain`,
-          the Viterbi invariant (`viterbi_inv`) ⇒ `viterbi_optimal_partial`.
-  Part 7  concrete instances over `Int`: non-vacuity of the hypotheses; `sentinel_counterexample`.
+          the Viterbi invariant (`viterbi_inv`) under an abstract restart discipline (`Restart`)
+          ⇒ `viterbi_optimal_core` ⇒ `viterbi_optimal_partial` (plain cost, `BoundedCost`) and
+          `viterbi_optimal` (`Tainted S`, unconditional); `cost_unbroken`.
+  Part 7  concrete instances over `Int`: non-vacuity of the hypotheses; `sentinel_counterexample`;
+          `repaired_example` over `Tainted Int`.
 -/
 import Kitoken.Spec.Unigram
 namespace Kitoken.Proofs.Unigram
@@ -1009,22 +1012,34 @@ theorem backWalk_chain (c : UniCtx S) (fb : List Fallback) (byteRec : Option (Un
     rw [backWalk_succ, if_pos hj, if_neg h1, if_neg h2, ih f _ (by omega)]
     simp [hid]
 
+/-- Restart discipline: what the optimality proof needs of the restart value `Cost.big`. `Bad` marks
+    the costs of paths that cross a restarted node: the restart value is bad, extending a bad path by
+    a vocabulary entry keeps it bad, nothing at or above a bad cost is good, and the cost of a genuine
+    partial segmentation is never bad (so a genuine path always beats a restarted one). -/
+structure Restart (tok : Bytes → Option (Id × S)) (piece : Bytes) (bounds : List Nat) (Bad : S → Prop) :
+    Prop where
+  big : Bad Cost.big
+  sub : ∀ b id sc (a : S), tok b = some (id, sc) → Bad a → Bad (Cost.sub a sc)
+  up : ∀ a b : S, Bad a → Cost.le a b = true → Bad b
+  seg : ∀ stop seg, IsSegFrom tok piece bounds 0 stop seg → ¬ Bad (cost seg)
+
 /-- The Viterbi invariant: a node whose prefix can be segmented carries the cost of a cheapest
     segmentation and its predecessor chain is such a segmentation; a node whose prefix cannot be
-    segmented carries a score at or above the restart value. -/
+    segmented carries a bad score (one of a path through a restarted node). -/
 theorem viterbi_inv [LawfulCost S] (c : UniCtx S) (piece : Bytes) (B : List Nat) (F : List (SizedPart S))
+    (Bad : S → Prop)
     (hb : BInfo piece.length B) (h0 : B.getD 0 0 = 0) (hM : Merged c piece B F)
     (hopt : ∀ j, 1 ≤ j → j < B.length → ∀ i, i < j → ∀ id sc,
       c.tok (slice piece (B.getD i 0) (B.getD j 0)) = some (id, sc) →
       Cost.le (F.getD j default).score (Cost.sub (F.getD i default).score sc) = true)
-    (hbc : BoundedCost c.tok piece B) :
+    (hR : Restart c.tok piece B Bad) :
     ∀ j, j < B.length →
       ((∃ s, IsSegFrom c.tok piece B 0 (B.getD j 0) s) →
         ∃ seg, Chain F j seg ∧ IsSegFrom c.tok piece B 0 (B.getD j 0) seg ∧
           cost seg = (F.getD j default).score ∧
           ∀ s, IsSegFrom c.tok piece B 0 (B.getD j 0) s → Cost.le (cost seg) (cost s) = true) ∧
       ((¬ ∃ s, IsSegFrom c.tok piece B 0 (B.getD j 0) s) →
-        Cost.le Cost.big (F.getD j default).score = true) := by
+        Bad (F.getD j default).score) := by
   intro j
   induction j using Nat.strongRecOn with
   | _ j ih =>
@@ -1061,12 +1076,9 @@ theorem viterbi_inv [LawfulCost S] (c : UniCtx S) (piece : Bytes) (B : List Nat)
           apply Classical.byContradiction
           intro hno
           have h1 := (ih k hk (by omega)).2 hno
-          have h2 : Cost.le (F.getD k default).score (F.getD j default).score = true := by
-            rw [hkscore]; exact hbc.grows _ _ _ _ hktok
-          have h3 := LawfulCost.le_trans _ _ _ (LawfulCost.le_trans _ _ _ h1 h2) hle_i
-          have h4 := hbc.below_big _ _ hsegie
-          rw [h3] at h4
-          cases h4
+          have h2 : Bad (F.getD j default).score := by
+            rw [hkscore]; exact hR.sub _ _ _ _ hktok h1
+          exact hR.seg _ _ hsegie (hR.up _ _ h2 hle_i)
         obtain ⟨segk, hchain, hsegk, hcostk, _⟩ := (ih k hk (by omega)).1 hkseg
         have hsegj : IsSegFrom c.tok piece B 0 (B.getD j 0) (segk ++ [ek]) :=
           isSeg_snoc _ _ _ _ ek _ _ _ hsegk (hb.lt k j hk hj) (getD_mem hj) rfl hktok
@@ -1087,7 +1099,7 @@ theorem viterbi_inv [LawfulCost S] (c : UniCtx S) (piece : Bytes) (B : List Nat)
           exact LawfulCost.le_trans _ _ _ h1 h2
       · intro hno
         by_cases htok : (F.getD j default).token = INVALID
-        · rw [(hM.unset j hj1 hj htok).2.1]; exact LawfulCost.le_refl _
+        · rw [(hM.unset j hj1 hj htok).2.1]; exact hR.big
         · obtain ⟨k, hk, sc, hktok, hkw, hkscore⟩ := hM.set j hj1 hj htok
           have hnok : ¬ ∃ s, IsSegFrom c.tok piece B 0 (B.getD k 0) s := by
             rintro ⟨s, hs⟩
@@ -1096,7 +1108,46 @@ theorem viterbi_inv [LawfulCost S] (c : UniCtx S) (piece : Bytes) (B : List Nat)
               isSeg_snoc _ _ _ _ _ _ _ _ hs (hb.lt k j hk hj) (getD_mem hj) rfl hktok⟩
           have h1 := (ih k hk (by omega)).2 hnok
           rw [hkscore]
-          exact LawfulCost.le_trans _ _ _ h1 (hbc.grows _ _ _ _ hktok)
+          exact hR.sub _ _ _ _ hktok h1
+
+/-- Optimality under an abstract restart discipline. -/
+theorem viterbi_optimal_core [LawfulCost S] (c : UniCtx S) (fb : List Fallback) (piece : Bytes)
+    (indices : List Nat) (pre : List (SizedPart S)) (res0 : List Id)
+    (hb : UnitBounds piece.length (indices ++ [piece.length]))
+    (h0 : (indices ++ [piece.length]).head? = some 0)
+    (hid : ∀ b id sc, c.tok b = some (id, sc) → id ≠ INVALID)
+    (hmax : ∀ b id sc, c.tok b = some (id, sc) → b.length ≤ c.maxTok)
+    (Bad : S → Prop) (hR : Restart c.tok piece (indices ++ [piece.length]) Bad)
+    (seg0 : List (Entry S)) (hseg : IsSegFrom c.tok piece (indices ++ [piece.length]) 0 piece.length seg0) :
+    ∃ seg buffer', IsSegFrom c.tok piece (indices ++ [piece.length]) 0 piece.length seg ∧
+      encodeUnigram c fb piece pre res0 indices = .ok (buffer', res0 ++ seg.map (·.id)) ∧
+      ∀ s', IsSegFrom c.tok piece (indices ++ [piece.length]) 0 piece.length s' →
+        Cost.le (cost seg) (cost s') = true := by
+  have hbi := BInfo.of_unitBounds hb
+  have hM := merged_of c piece _ hbi hid hmax
+  have hopt := merged_opt c piece _ hbi hid hmax
+  have hlast : (indices ++ [piece.length]).getD indices.length 0 = piece.length := by simp
+  have hinv := (viterbi_inv c piece _ _ Bad hbi (head_getD h0) hM hopt hR indices.length (by simp)).1
+  rw [hlast] at hinv
+  obtain ⟨seg, hchain, hsegj, _, hbest⟩ := hinv ⟨seg0, hseg⟩
+  obtain ⟨r, hrf, heq⟩ := encodeUnigram_nil c fb piece indices
+  refine ⟨seg, pre ++ mergeParts c piece ((indices ++ [piece.length]).map fresh) 0, hsegj, ?_, hbest⟩
+  rw [encodeUnigram_offs c fb piece pre res0 indices, heq,
+    backWalk_chain c fb r piece _ _ _ hchain (indices.length + 1) [] (by omega)]
+  simp [lift]
+
+omit [Inhabited S] in
+/-- Instance (a): a plain cost type in the region `BoundedCost`; bad = at or above the restart value. -/
+theorem restart_of_bounded [LawfulCost S] (tok : Bytes → Option (Id × S)) (piece : Bytes) (bounds : List Nat)
+    (hbc : BoundedCost tok piece bounds) :
+    Restart tok piece bounds (fun x => Cost.le Cost.big x = true) where
+  big := LawfulCost.le_refl _
+  sub := fun _ _ _ a htok h => LawfulCost.le_trans _ _ _ h (hbc.grows _ _ _ a htok)
+  up := fun _ _ h hle => LawfulCost.le_trans _ _ _ h hle
+  seg := fun stop seg hs h => by
+    have := hbc.below_big stop seg hs
+    rw [h] at this
+    cases this
 
 theorem viterbi_optimal_partial [LawfulCost S] (c : UniCtx S) (fb : List Fallback) (piece : Bytes)
     (indices : List Nat) (pre : List (SizedPart S)) (res0 : List Id)
@@ -1109,19 +1160,62 @@ theorem viterbi_optimal_partial [LawfulCost S] (c : UniCtx S) (fb : List Fallbac
     ∃ seg buffer', IsSegFrom c.tok piece (indices ++ [piece.length]) 0 piece.length seg ∧
       encodeUnigram c fb piece pre res0 indices = .ok (buffer', res0 ++ seg.map (·.id)) ∧
       ∀ s', IsSegFrom c.tok piece (indices ++ [piece.length]) 0 piece.length s' →
-        Cost.le (cost seg) (cost s') = true := by
-  have hbi := BInfo.of_unitBounds hb
-  have hM := merged_of c piece _ hbi hid hmax
-  have hopt := merged_opt c piece _ hbi hid hmax
-  have hlast : (indices ++ [piece.length]).getD indices.length 0 = piece.length := by simp
-  have hinv := (viterbi_inv c piece _ _ hbi (head_getD h0) hM hopt hbc indices.length (by simp)).1
-  rw [hlast] at hinv
-  obtain ⟨seg, hchain, hsegj, _, hbest⟩ := hinv ⟨seg0, hseg⟩
-  obtain ⟨r, hrf, heq⟩ := encodeUnigram_nil c fb piece indices
-  refine ⟨seg, pre ++ mergeParts c piece ((indices ++ [piece.length]).map fresh) 0, hsegj, ?_, hbest⟩
-  rw [encodeUnigram_offs c fb piece pre res0 indices, heq,
-    backWalk_chain c fb r piece _ _ _ hchain (indices.length + 1) [] (by omega)]
-  simp [lift]
+        Cost.le (cost seg) (cost s') = true :=
+  viterbi_optimal_core c fb piece indices pre res0 hb h0 hid hmax _
+    (restart_of_bounded c.tok piece _ hbc) seg0 hseg
+
+/-! ### The repaired cost type `Tainted S` (F13) -/
+
+omit [Inhabited S] in
+theorem foldl_tainted (seg : List (Entry (Tainted S))) (acc : Tainted S) :
+    (seg.foldl (fun acc e => Cost.sub acc e.score) acc).broken = acc.broken ∧
+    (seg.foldl (fun acc e => Cost.sub acc e.score) acc).val
+      = seg.foldl (fun acc e => Cost.sub acc e.score.val) acc.val := by
+  induction seg generalizing acc with
+  | nil => exact ⟨rfl, rfl⟩
+  | cons e rest ih =>
+    simp only [List.foldl_cons]
+    obtain ⟨h1, h2⟩ := ih (Cost.sub acc e.score)
+    exact ⟨h1, h2⟩
+
+omit [Inhabited S] in
+/-- The cost of a segmentation is never `broken`; its value is the fold of the values. -/
+theorem cost_unbroken (seg : List (Entry (Tainted S))) :
+    (cost seg).broken = false ∧
+      (cost seg).val = seg.foldl (fun acc e => Cost.sub acc e.score.val) Cost.zero :=
+  foldl_tainted seg Cost.zero
+
+omit [Inhabited S] in
+/-- Instance (b): the repaired cost type, unconditionally; bad = `broken`. -/
+theorem restart_tainted (tok : Bytes → Option (Id × Tainted S)) (piece : Bytes) (bounds : List Nat) :
+    Restart tok piece bounds (fun x => x.broken = true) where
+  big := rfl
+  sub := fun _ _ _ _ _ h => h
+  up := fun a b h hle => by
+    have hle' : ((!a.broken && b.broken) || (a.broken == b.broken && Cost.le a.val b.val)) = true := hle
+    rw [h] at hle'
+    cases hb : b.broken with
+    | true => rfl
+    | false => rw [hb] at hle'; simp at hle'
+  seg := fun _ seg _ h => by
+    rw [(cost_unbroken seg).1] at h
+    cases h
+
+/-- Optimality for the repaired code: no bound on the costs is needed. -/
+theorem viterbi_optimal [LawfulCost S] (c : UniCtx (Tainted S)) (fb : List Fallback) (piece : Bytes)
+    (indices : List Nat) (pre : List (SizedPart (Tainted S))) (res0 : List Id)
+    (hb : UnitBounds piece.length (indices ++ [piece.length]))
+    (h0 : (indices ++ [piece.length]).head? = some 0)
+    (hid : ∀ b id sc, c.tok b = some (id, sc) → id ≠ INVALID)
+    (hmax : ∀ b id sc, c.tok b = some (id, sc) → b.length ≤ c.maxTok)
+    (seg0 : List (Entry (Tainted S)))
+    (hseg : IsSegFrom c.tok piece (indices ++ [piece.length]) 0 piece.length seg0) :
+    ∃ seg buffer', IsSegFrom c.tok piece (indices ++ [piece.length]) 0 piece.length seg ∧
+      encodeUnigram c fb piece pre res0 indices = .ok (buffer', res0 ++ seg.map (·.id)) ∧
+      ∀ s', IsSegFrom c.tok piece (indices ++ [piece.length]) 0 piece.length s' →
+        Cost.le (cost seg) (cost s') = true :=
+  viterbi_optimal_core c fb piece indices pre res0 hb h0 hid hmax _
+    (restart_tainted c.tok piece _) seg0 hseg
 
 /-! ## Part 7: concrete instances (`S := Int`) -/
 
@@ -1251,6 +1345,31 @@ theorem sentinel_counterexample :
     have h1 : outErr (encodeUnigram ctxS [] pieceS [] [] [0, 1, 2, 3, 4, 5]) = some [120] := by decide
     rw [h] at h1
     simp [outErr] at h1
+
+/-! The same witness under the repaired cost type (`Kitoken.Proofs.Unigram.Examples`). -/
+namespace Examples
+
+/-- "aaaxyz", the piece of the sentinel witness. -/
+abbrev pieceS : Bytes := Kitoken.Proofs.Unigram.pieceS
+
+/-- The sentinel vocabulary under the repaired cost type: all scores unbroken. -/
+def tokST : Bytes → Option (Id × Tainted Int) := fun b =>
+  if b = [97] then some (0, ⟨false, -400000⟩) else if b = [120, 121, 122] then some (1, ⟨false, -1⟩)
+  else if b = [121, 122] then some (2, ⟨false, -1⟩) else none
+
+def ctxST : UniCtx (Tainted Int) :=
+  { tok := tokST, unknown := some 3, fallback := [], maxTok := 3, minTok := 1 }
+
+def outIdsT (r : Res (Scratch (Tainted Int))) : Option (List Id) :=
+  match r with | .ok (_, ids) => some ids | _ => none
+
+/-- The former counterexample under the repaired comparison: the genuine segmentation `[a, a, a, xyz]`
+    wins against the restarted path. -/
+theorem repaired_example :
+    outIdsT (encodeUnigram ctxST [.unknown] pieceS [] [] [0, 1, 2, 3, 4, 5]) = some [0, 0, 0, 1] := by
+  decide
+
+end Examples
 
 end Examples
 
